@@ -1,6 +1,7 @@
 package props
 
 import (
+	"context"
 	"fmt"
 	"math/rand"
 	"strings"
@@ -134,6 +135,36 @@ var c12Lit = core.Mon(c12, "literal-value", func(w *core.W, c *LitCase) {
 	got := obs.DecOf(d)
 	if !got.Finite() || !got.Equal(want) {
 		w.Violation("literal-value", "C12/wrong-value", c, want.String(), got.String(), fmt.Sprintf("literal %q evaluates to %s", c.Lit, d.String()))
+		return
+	}
+	// the literal as the top-level result of one evaluation, read back in the next (the value must still be the written one)
+	if want.Digits() > 30 || strings.Contains(c.Lit, "_") || w.Counter("wellformed_checked")%16 == 0 {
+		sc1, e1 := formula.ParseSourceCode([]byte("$v = " + c.Lit))
+		sc2, e2 := formula.ParseSourceCode([]byte("[$v, " + c.Lit + "]"))
+		if e1 != nil || e2 != nil {
+			return
+		}
+		r := formula.NewRunner()
+		var v2 interface{}
+		var rerr error
+		panicked, pv := core.Call(func() {
+			if _, rerr = r.Resolve(context.Background(), sc1.Expression); rerr == nil {
+				v2, rerr = r.Resolve(context.Background(), sc2.Expression)
+			}
+		})
+		w.Count("bound_and_read_back")
+		if panicked || rerr != nil {
+			w.Violation("literal-value", "C12/bound-literal-error", c, want.String(), fmt.Sprint(pv, rerr), "$v = "+c.Lit+" ; [$v, "+c.Lit+"]")
+			return
+		}
+		arr, _ := v2.([]interface{})
+		for i, e := range arr {
+			de, ok := e.(*decimal.Big)
+			if !ok || de == nil || !obs.DecOf(de).Finite() || !obs.DecOf(de).Equal(want) {
+				w.Violation("literal-value", "C12/bound-literal-value", c, want.String(), show(e), fmt.Sprintf("element %d of [$v, %s] after `$v = %s` was the previous evaluation's result", i, c.Lit, c.Lit))
+				return
+			}
+		}
 	}
 })
 
